@@ -87,13 +87,17 @@ RULE = ("sound_event_detection end to end (0-4 evaluated clips, 0-4 annotated an
         "model_copy (shallow, deep), subclass instances of geometries / clips / sound events, one shared object per "
         "distinct geometry or tag, a prediction carrying the uuid (and SoundEvent) of an annotation); boundaries: boxes and "
         "intervals that overlap an annotated one by 2^-20 .. 2^-40, touch it exactly, miss it by as much, or differ from it by "
-        "as much, along time or frequency, at times up to 2^17 s and frequencies up to 2^20 Hz; buffered geometry types "
+        "as much, along time or frequency, at times up to 2^17 s and frequencies up to 2^20 Hz; decimal (non-dyadic) grids, "
+        "coordinates handed to the model as the exact rationals of the floats: every [a, b] against [b, c] on k/10 (660 clips, "
+        "interval / interval and interval / box: exactly touching, no shared time) and random time-only pairings touching, one "
+        "or two ulps apart or over each other; buffered geometry types "
         "(time stamps, points, lines, multi points / lines / polygons) at dyadic offsets around twice the buffers; sizes: clips "
         "with 17, 260 and 33 x 32 (>= 1024 pairs) sound events on a lattice with several frequency rows; direct calls of "
-        "the matcher with eight buffer settings (keyword, positional, defaults); histories (detection_history): 160 / 1600 "
+        "the matcher with eight buffer settings (keyword, positional, defaults) and of its sibling entry point "
+        "compute_affinity; histories (detection_history): 160 / 1600 "
         "sequences of 3-5 calls in one process - half of them directed (x, a neighbour of x of one kind on the same live "
         "objects revised one way, x again: kind in {other vocabulary, moved / added / removed / re-tagged / geometry-less sound "
-        "event, direct matcher call with other buffers} x way in {in place, model_copy(update), deep model_copy(update), "
+        "event, direct matcher / compute_affinity call with other buffers} x way in {in place, model_copy(update), deep model_copy(update), "
         "copy.copy + assignment}), half random mixtures with fresh steps under stable uuids (revised content under the same "
         "uuid) - every step judged on its own by the model, arguments snapshotted around every call, returned evaluations "
         "poisoned in place and earlier live results read again after later calls; "
